@@ -83,7 +83,7 @@ class Panoptica_Aggregator:
             out_file_path += ".tsv"  # add extension
 
         out_buffer_file: Path = Path(out_file_path).parent.joinpath(
-            "panoptica_aggregator_tmp.tsv"
+            "panoptica_aggregator_tmp_" + Path(out_file_path).name
         )
         self.__output_buffer_file = out_buffer_file
 
